@@ -33,6 +33,22 @@ def run_histories(hs, timeout=2400):
     return [out[h['id']] for h in hs]
 
 
+def boundary_history(rng, nmods):
+    """nmods tiny modules, no imports (an edit rechecks one module); every module has strings only it mentions."""
+    def text(i, v):
+        return ('class ClassWithAVeryLongNameNumber%d(val fieldWithAVeryLongNameNumber%d: int) {\n'
+                '  /** a documentation comment only module %d has, long enough */\n'
+                '  function functionWithAVeryLongNameNumber%d(parameterWithAVeryLongNameNumber%d: int): int = %d\n}\n' % (i, i, i, i, i, v))
+    init = {'B%d' % i: text(i, 0) for i in range(nmods)}
+    ops = []
+    for step in range(3):
+        k = rng.below(nmods)
+        ops.append({'op': 'update', 'mods': [['B%d' % k, text(k, step + 1)]]})
+    ops.append({'op': 'update', 'mods': [['Bnew', text(nmods, 0)]]})
+    ops.append({'op': 'update', 'mods': [['B0', text(0, 9)]]})
+    return {'init': init, 'ops': ops, 'seed': rng.next() % 100000, 'positions': 0}
+
+
 def first_panic(res):
     if res.get('init_panic'):
         return (-1, {'query': 'ServerState::new', 'msg': res['init_panic'], 'module': '', 'pos': [0, 0]})
@@ -95,6 +111,10 @@ def run(tier, seed, replay=None):
         if os.path.isdir(cdir):
             for fn in sorted(os.listdir(cdir)):
                 hs.append(json.load(open(os.path.join(cdir, fn)))['history'])
+        # module counts around the collector's slice size (it marks at most 100 modules per round): tiny modules, each
+        # holding long strings that nothing else mentions
+        for nm in ([99, 100, 101, 102] if tier == 'quick' else [1, 50, 99, 100, 101, 102, 103, 150, 199, 200, 201, 202, 250, 301]):
+            hs.append(boundary_history(rng.fork(), nm))
         for i in range(n):
             r = rng.fork()
             h = H.gen_history(r, nmods=rng.range(2, 6), nsteps=10 if tier == 'quick' else 20, long_ids=(i % 4 != 3))
